@@ -133,17 +133,30 @@ char *igris_u8toa(uint8_t num, char *buf, uint8_t base)
     return igris_u64toa((uint64_t)num, buf, base);
 }
 
+// value of a digit character in bases up to 36 (letters of either case), -1 if
+// the character is not a digit at all
+static inline int digit_value(char c)
+{
+    if (c >= '0' && c <= '9')
+        return c - '0';
+    if (c >= 'a' && c <= 'z')
+        return c - 'a' + 10;
+    if (c >= 'A' && c <= 'Z')
+        return c - 'A' + 10;
+    return -1;
+}
+
 uint32_t igris_atou32(const char *buf, uint8_t base, char **end)
 {
     uint32_t res = 0;
 
-    for (char c = *buf; ((c = *buf)) && igris_isxdigit(c); buf++)
+    for (int d; (d = digit_value(*buf)) >= 0 && d < base; buf++)
     {
-        res = res * base + hex2half(c);
+        res = res * base + (unsigned)d;
     }
 
     if (end)
-        *end = (char *)buf - 1;
+        *end = (char *)buf;
 
     return res;
 }
@@ -152,13 +165,13 @@ uint64_t igris_atou64(const char *buf, uint8_t base, char **end)
 {
     uint64_t res = 0;
 
-    for (char c = *buf; ((c = *buf)) && igris_isxdigit(c); buf++)
+    for (int d; (d = digit_value(*buf)) >= 0 && d < base; buf++)
     {
-        res = res * base + hex2half(c);
+        res = res * base + (unsigned)d;
     }
 
     if (end)
-        *end = (char *)buf - 1;
+        *end = (char *)buf;
 
     return res;
 }
